@@ -72,6 +72,20 @@ def class_graph_programs(rng, n):
     return out
 
 
+def token_placement_programs():
+    """every token spelling of the language in every position relative to operands (prefix, infix, postfix, alone, inside
+    parentheses / brackets / an interpolation / an argument list / a block): the parser must report or accept, never loop"""
+    out = []
+    voc = gen_lex.vocabulary() + ["x", "1", "\"s\"", "1.5", "2E3"]
+    for t in voc:
+        for tmpl in ("def c := a %s b\n", "def c := %s a\n", "def c := a %s\n", "def c := (a %s)\n", "def c := (a %s b)\n", "def c := [a %s b]\n",
+                     "def c := f(a %s b)\n", "def c := f(a, %s)\n", "def c := \"{a %s b}\"\n", "def c := \"{a %s}\"\n", "%s\n", "a %s\n",
+                     "if a %s b then c\n", "def f(x: Int) -> Int =>\n    a %s b\n", "class K\n    def m(self) => a %s b\n", "match a %s\n    1 => 2\n",
+                     "for i in a %s b do c\n", "def c := a %s %s b\n" % ("%s", t), "a := b %s c\n", "def c := a.b %s c\n", "def c := a[%s]\n"):
+            out.append(tmpl % t)
+    return out
+
+
 def deep_programs():
     out = []
     for depth in (5, 20, 40):
@@ -101,6 +115,7 @@ def run(chk):
         return
     rng = chk.rng
     cases = [("adversarial", t) for t in ADVERSARIAL] + [("deep", t) for t in deep_programs()]
+    cases += [("token-placement", t) for t in token_placement_programs()]
     cases += [("class-graph", t) for t in class_graph_programs(rng, 1500 if thorough else 300)]
     cases += [("special-name", t) for t in special_name_programs()]
     cases += [("corpus", f["input"]) for f in chk.findings if f.get("input")]
@@ -116,7 +131,7 @@ def run(chk):
     cases += [("sample", t) for t in samples]
     ids = [("c%d" % i, "%d %s" % (i % 2, hexs(t))) for i, (_, t) in enumerate(cases)]
     t0 = time.time()
-    res = chk.harness("pipe", ids, timeout=900)
+    res = chk.harness("pipe", ids, timeout=900, case_timeout=20)
     wall = time.time() - t0
     dist, verdicts = {}, {"ok": 0, "err": 0}
     distinct = set()
